@@ -136,6 +136,9 @@ func genSnapCase(rng *fw.Rng, pr *Profile) (*SnapCase, string) {
 			ids = append(ids, id)
 		}
 	}
+	if rng.Chance(1, 25) { // a request may name a tile matrix twice
+		ids = append(ids, ids[rng.Intn(len(ids))])
+	}
 	// requested in random order
 	perm := rng.Perm(len(ids))
 	shuffled := make([]int, len(ids))
@@ -277,6 +280,8 @@ type Obs struct {
 	levels         map[int]*LevelObs
 	facts          map[int]*oracle.RouteFacts
 	MaxVertices    int
+	UIDs           []int // requested ids without repetitions (a request may legally name a tile matrix twice)
+	InputModified  bool  // the caller's memory (rings packed in one array with spare capacity) was written to
 }
 
 const centreTol = 64
@@ -296,6 +301,11 @@ func observeBudget(c *SnapCase, budget func(o *Obs)) (*Obs, error) {
 		}
 	}
 	o := &Obs{Case: c, Set: gs, Req: gs.Request(c.IDs), levels: map[int]*LevelObs{}, facts: map[int]*oracle.RouteFacts{}}
+	for _, id := range c.IDs {
+		if !containsInt(o.UIDs, id) {
+			o.UIDs = append(o.UIDs, id)
+		}
+	}
 	o.Rings = make([][]P, len(c.Poly))
 	o.AllInside, o.AllCovered = true, true
 	cx, cy := o.Req.CoveredMax()
@@ -328,7 +338,37 @@ func observeBudget(c *SnapCase, budget func(o *Obs)) (*Obs, error) {
 	} else {
 		o.Norm = normaliseLikeTool(o.Rings)
 	}
+	// memory layout of the input: for every second case all rings are windows of ONE array, with spare capacity and canary
+	// values between them (what a decoder with a flat coordinate buffer hands out); otherwise every ring has its own array
 	poly := c.GeomPolygon()
+	var flat [][2]float64
+	var canaries []int
+	gap := 0
+	if h := fw.Hash64(c.JSON()); h&1 == 0 {
+		if h&2 == 0 {
+			gap = 2 // canaries between the rings; otherwise the rings are adjacent and only the tail is a canary
+		}
+		poly, flat, canaries = flatPolygon(c.Poly, gap)
+	}
+	defer func() {
+		for _, i := range canaries {
+			if flat[i] != canary {
+				o.InputModified = true
+			}
+		}
+		if flat != nil {
+			k := 0
+			for _, r := range c.Poly {
+				for _, p := range r {
+					if flat[k] != p {
+						o.InputModified = true
+					}
+					k++
+				}
+				k += gap
+			}
+		}
+	}()
 	func() {
 		defer func() {
 			if r := recover(); r != nil {
@@ -377,6 +417,36 @@ func abs64(v int64) int64 {
 		return -v
 	}
 	return v
+}
+
+var canary = [2]float64{-7.777e77, 7.777e77}
+
+// flatPolygon packs the rings into one backing array: ring i is flat[a:b] with capacity running on into the canaries
+// (and the following rings) - legal Go for a caller, and exactly what an in-place append inside texel would trample.
+func flatPolygon(rings [][][2]float64, gap int) (geom.Polygon, [][2]float64, []int) {
+	n := 2 // two canaries at the very end in any case
+	for _, r := range rings {
+		n += len(r) + gap
+	}
+	flat := make([][2]float64, n)
+	poly := make(geom.Polygon, len(rings))
+	var canaries []int
+	k := 0
+	for i, r := range rings {
+		copy(flat[k:], r)
+		poly[i] = flat[k : k+len(r)]
+		k += len(r)
+		for g := 0; g < gap; g++ {
+			flat[k] = canary
+			canaries = append(canaries, k)
+			k++
+		}
+	}
+	for ; k < n; k++ {
+		flat[k] = canary
+		canaries = append(canaries, k)
+	}
+	return poly, flat, canaries
 }
 
 // normaliseLikeTool: for invalid rings the sign of the exact area still decides the direction where it is non-zero.
